@@ -193,4 +193,47 @@ def run(ctx):
             else:
                 res.fail(Finding("R-MODE.I", "R-MODE/ignored-datum/%s/%s" % (row["id"], c.name.split("::")[-1]), "%s: %s (line %d) can refuse the file on account of it with none of the excluding conditions on the path (%s)" % (row["why"], c.name.split("::")[-1], c.line, "; ".join(a[:60] for a in atoms[:4]) or "no conditions"), f, t["span"]))
     res.floor("checks on discarded data", nign, ctx.table("floors").get("mode_ignored", 0))
+    # a normaliser that discards surplus data must run before anything refuses the file on account of that data
+    nd = 0
+    for fpath, rows in normalisers.items():
+        f = ctx.fx.fns.get(fpath)
+        if f is None:
+            continue
+        for row in rows:
+            if not row.get("discard_before_checks"):
+                continue
+            v = view(ctx, f)
+            pr = Prov(f)
+            g = guards(ctx, f)
+            pg = v.pg
+            shrink = [c for c in v.calls.values() if c.name.split("::")[-1] in ("truncate", "pop") and c.term["args"] and re.search(row["vector"], pr.operand(c.term["args"][0]))]
+            if not shrink:
+                res.gone.append(fpath + ":normaliser")
+                continue
+            vec = pr.operand(shrink[0].term["args"][0])
+            guard_true = []
+            for bb, blk in enumerate(f.blocks):
+                if blk["cleanup"] or blk["term"]["t"] != "switch":
+                    continue
+                t = blk["term"]
+                vals = [str(x) for x, _ in t["arms"]] + ["otherwise"]
+                tg = [b for _, b in t["arms"]] + [t["otherwise"]]
+                for val, tgt in zip(vals, tg):
+                    if atoms_match(row["noop_guard"], g.describe_all(bb, val, vals)):
+                        guard_true += pg.edge_node(bb, tgt)
+            strict_edges = set()
+            for (_bb, strict_e, _perm_e) in _mode_switches(ctx, f):
+                strict_edges.update(strict_e)
+            avoid = {("t", c.bb) for c in shrink} | strict_edges
+            reach = pg.reach(guard_true, avoid) if guard_true else set()
+            for (c, kind) in refusals(ctx, f):
+                atoms = g.atoms_at(("t", c.bb))
+                if not any(vec in a for a in atoms):
+                    continue
+                nd += 1
+                if ("t", c.bb) in reach:
+                    res.fail(Finding("R-MODE.N", "R-MODE/%s/refusal-before-normaliser" % fpath, "under permissive validation the surplus part of %s is discarded (%s), yet the refusal at line %d, which depends on %s, can be reached with the surplus still in place: a tolerated deviation is rejected on account of data that would have been dropped" % (vec, row["why"], c.line, vec), f, c.term["span"]))
+                else:
+                    res.ok({"function": fpath, "refusal_line": c.line, "depends_on": vec, "normaliser_runs_first": True}, nontrivial=True)
+    res.floor("refusals behind a discarding normaliser", nd, ctx.table("floors").get("mode_discard", 0))
     return res
